@@ -50,6 +50,8 @@ cls(
     fields={"terminate": "Event", "terminated": "Event", "event_class": "evclass"},
     interface=True,
     immutable=["terminate", "terminated", "event_class"],
+    # shutdown, once begun, is never undone
+    rely=[("WorkerContext.rely.terminated-monotone", "implies(old(self.terminated.flag), self.terminated.flag)", "C15")],
 )
 fn("hypercorn.typing:WorkerContext.mark_request", params={}, modifies=[], effect="atomic", assume_only=True,
    trusted_reason="interface; refined by both WorkerContext.mark_request (C16/C18): Event.set does not suspend")
